@@ -80,6 +80,9 @@ static size_t concat_certs(const int *ids, size_t n, uint8_t *out) {
 static int ctype_of(const char *s) { return !strcmp(s, "data") ? OID_cms_data : !strcmp(s, "signed") ? OID_cms_signed_data : OID_cms_encrypted_data; }
 
 static const uint8_t SYMKEY[16] = { 1, 2, 3, 4, 5, 6, 7, 8, 9, 10, 11, 12, 13, 14, 15, 16 };
+/* a content key that equals what a stack poisoned with 64-bit words of value 16 looks like (key bytes and keylen == 16 at once) */
+static const uint8_t POISONKEY[16] = { 16, 0, 0, 0, 0, 0, 0, 0, 16, 0, 0, 0, 0, 0, 0, 0 };
+static const uint8_t *cur_key = SYMKEY;
 static const uint8_t IV[16] = { 0xa0, 0xa1, 0xa2, 0xa3, 0xa4, 0xa5, 0xa6, 0xa7, 0xa8, 0xa9, 0xaa, 0xab, 0xac, 0xad, 0xae, 0xaf };
 
 typedef struct { uint8_t *p; size_t n; } blob_t;
@@ -95,9 +98,9 @@ static blob_t make_signed(const int *ids, size_t n, int ctype, const buf_t *cont
 }
 static blob_t make_env(const int *ids, size_t n, int ctype, const buf_t *content) {
 	blob_t r = { NULL, 0 }; uint8_t rc[NK * 1024]; size_t rclen = concat_certs(ids, n, rc), len = 0;
-	if (cms_envelop(NULL, &len, rc, rclen, OID_sm4_cbc, SYMKEY, 16, IV, 16, ctype, content->p, content->n, NULL, 0, NULL, 0) != 1) return r;
+	if (cms_envelop(NULL, &len, rc, rclen, OID_sm4_cbc, cur_key, 16, IV, 16, ctype, content->p, content->n, NULL, 0, NULL, 0) != 1) return r;
 	r.p = malloc(len ? len : 1);
-	if (cms_envelop(r.p, &r.n, rc, rclen, OID_sm4_cbc, SYMKEY, 16, IV, 16, ctype, content->p, content->n, NULL, 0, NULL, 0) != 1 || r.n != len) { free(r.p); r.p = NULL; r.n = 0; }
+	if (cms_envelop(r.p, &r.n, rc, rclen, OID_sm4_cbc, cur_key, 16, IV, 16, ctype, content->p, content->n, NULL, 0, NULL, 0) != 1 || r.n != len) { free(r.p); r.p = NULL; r.n = 0; }
 	return r;
 }
 static blob_t make_enc(int ctype, const buf_t *content) {
@@ -112,9 +115,9 @@ static blob_t make_signenv(const int *sids, size_t ns, const int *rids, size_t n
 	const uint8_t *crls = with_crl ? crl1 : NULL; size_t crlslen = with_crl ? crl1len : 0;
 	blob_t r = { NULL, 0 }; CMS_CERTS_AND_KEY signers[8]; size_t i, len = 0; uint8_t rc[NK * 1024]; size_t rclen = concat_certs(rids, nr, rc);
 	for (i = 0; i < ns; i++) { signers[i].certs = certs[sids[i]]; signers[i].certs_len = certlens[sids[i]]; signers[i].sign_key = &keys[sids[i]]; }
-	if (cms_sign_and_envelop(NULL, &len, signers, ns, rc, rclen, OID_sm4_cbc, SYMKEY, 16, IV, 16, ctype, content->p, content->n, crls, crlslen, NULL, 0, NULL, 0) != 1) return r;
+	if (cms_sign_and_envelop(NULL, &len, signers, ns, rc, rclen, OID_sm4_cbc, cur_key, 16, IV, 16, ctype, content->p, content->n, crls, crlslen, NULL, 0, NULL, 0) != 1) return r;
 	r.p = malloc(len ? len : 1);
-	if (cms_sign_and_envelop(r.p, &r.n, signers, ns, rc, rclen, OID_sm4_cbc, SYMKEY, 16, IV, 16, ctype, content->p, content->n, crls, crlslen, NULL, 0, NULL, 0) != 1 || r.n != len) { free(r.p); r.p = NULL; r.n = 0; }
+	if (cms_sign_and_envelop(r.p, &r.n, signers, ns, rc, rclen, OID_sm4_cbc, cur_key, 16, IV, 16, ctype, content->p, content->n, crls, crlslen, NULL, 0, NULL, 0) != 1 || r.n != len) { free(r.p); r.p = NULL; r.n = 0; }
 	return r;
 }
 
@@ -350,6 +353,42 @@ static void do_omit(const char *kind, char *pathstr, int k, const buf_t *content
 	free(m.p); free(t.p);
 }
 
+/* fill the stack region the next calls will use with 64-bit words of value 16 */
+static void __attribute__((noinline)) poison_stack(void) {
+	volatile uint64_t a[6144]; size_t i;
+	for (i = 0; i < sizeof a / sizeof a[0]; i++) a[i] = 16;
+	(void)a[17];
+}
+/* lowseq <env|signenv> <rcpts> <member> <outsider> <content>: the low-level public entry point, called back to back from this
+ * one frame with everything prepared beforehand: outsider on a poisoned stack, member, outsider again, member, wrong-issuer */
+static void do_lowseq(const char *kind, char *rc, int mem, int out, const buf_t *content) {
+	int ids[8], s1[] = { 1 }; size_t n = parse_ids(rc, ids, 8); blob_t m; int t, ct, i; const uint8_t *d, *cp; size_t dl, cl;
+	const uint8_t *iss[2], *ser[2]; size_t il[2], sl[2]; const uint8_t *ri, *a1, *a2, *cs, *crls, *si; size_t ril, l1, l2, csl, crll, sil;
+	uint8_t *o; size_t ol; int r[5]; int who[5]; int isenv = !strcmp(kind, "env");
+	if (n == (size_t)-1 || n == 0 || mem < 1 || mem > NK || out < 1 || out > NK) { printf("ERR ids"); return; }
+	cur_key = POISONKEY;
+	m = isenv ? make_env(ids, n, OID_cms_data, content) : make_signenv(s1, 1, ids, n, OID_cms_data, content, 1);
+	cur_key = SYMKEY;
+	if (!m.p) { printf("E=ERR"); return; }
+	cp = m.p; cl = m.n;
+	if (cms_content_info_from_der(&t, &d, &dl, &cp, &cl) != 1
+		|| x509_cert_get_issuer_and_serial_number(certs[mem], certlens[mem], &iss[0], &il[0], &ser[0], &sl[0]) != 1
+		|| x509_cert_get_issuer_and_serial_number(certs[out], certlens[out], &iss[1], &il[1], &ser[1], &sl[1]) != 1) { printf("ERR prep"); free(m.p); return; }
+	o = malloc(m.n + 64);
+	who[0] = 1; who[1] = 0; who[2] = 1; who[3] = 0; who[4] = 1;
+	for (i = 0; i < 5; i++) {
+		const uint8_t *dd = d; size_t ddl = dl; int k = who[i]; int rr;
+		if (i == 0) poison_stack();
+		ol = 0;
+		if (isenv) rr = cms_enveloped_data_decrypt_from_der(&keys_pub[k ? out : mem], iss[k], il[k], ser[k], sl[k], &ct, o, &ol, &ri, &ril, &a1, &l1, &a2, &l2, &dd, &ddl);
+		else rr = cms_signed_and_enveloped_data_decipher_from_der(&keys_pub[k ? out : mem], iss[k], il[k], ser[k], sl[k], &ct, o, &ol, &ri, &ril, &a1, &l1, &a2, &l2,
+			&cs, &csl, &crls, &crll, &si, &sil, NULL, 0, NULL, 0, &dd, &ddl);
+		r[i] = rr != 1 ? 0 : ((ol == content->n && memcmp(o, content->p, ol) == 0) ? 1 : 2);
+	}
+	printf("E=1 outsider-on-poisoned-stack=%s member=%s outsider-after-member=%s member=%s outsider=%s", res(r[0]), res(r[1]), res(r[2]), res(r[3]), res(r[4]));
+	free(o); free(m.p);
+}
+
 static void handle(size_t nw, char **w) {
 	ent_seed(0xC16 + nw, -1);
 	ent_clock(1700000000);
@@ -396,6 +435,7 @@ static void handle(size_t nw, char **w) {
 		printf(" low:member=%s outsider=%s", res(r1), res(r2));
 		free(m.p); free(c.p);
 	}
+	else if (!strcmp(w[0], "lowseq") && nw == 6) { buf_t c = hex2buf(w[5]); do_lowseq(w[1], w[2], atoi(w[3]), atoi(w[4]), &c); free(c.p); }
 	else if (!strcmp(w[0], "enc") && nw == 3) {
 		buf_t c = hex2buf(w[2]); blob_t m = make_enc(OID_cms_data, &c); uint8_t k2[16]; memcpy(k2, SYMKEY, 16); if (atoi(w[1])) k2[5] ^= 1;
 		if (!m.p) printf("E=ERR"); else printf("E=1 D=%s", res(open_enc(&m, k2, &c)));
